@@ -9,6 +9,7 @@ GRAPHS = {
     "g6": (["src", "p", "q", "r", "j"], 5),
     "g6b": (["src", "src2", "p", "j"], 3),
     "g7": (["src", "p", "q", "r"], 3),
+    "g8": (["src", "p", "q"], 2),
     "g8b": (["src", "ps", "p"], 2),
     "g8c": (["src", "ps", "pp", "p", "q"], 4),
     "g11": (["src", "p", "last"], 2),
@@ -42,6 +43,6 @@ def setup(J):
                         items = 1 if q else 2
                         jobs.append(J.with_delay_fallback(J.wf("C16", g, items, 1, 2, "func", oracles=["nohang", "clean", "c04", "c05", "c16-runto"], tier=tier, events_dep=False,
                                                                runto=list(sub), runtohow=how, budget=(20 if q else 120), id=f"C16-runto-{g}-{'+'.join(sub)}-{how}")))
-        return {"level": "model_checking", "stages": [lambda ctx, prev: jobs],
+        return {"level": "model_checking", "native": True, "stages": [lambda ctx, prev: jobs],
                 "rule": "graphs G3-G8/G11: (a) every single file / parameter edge left unconnected -> exit != 0 and zero start events in every schedule; (b) consumers removed -> dangling out-ports, run completes with the reference result; (c) EVERY non-empty subset of processes as RunTo targets (by name, regex, process value): processes with start events = reference transitive closure over file and parameter edges, each task exactly once, reference files, C05 return predicate; all schedules by DPOR + sleep sets (delay bound 2 where not closed)",
                 "assumptions": J.BASE_ASSUMPTIONS}
